@@ -18,7 +18,7 @@ use hickory_proto::rr::{DNSClass, Name, RData, Record, RecordType};
 use hickory_proto::serialize::binary::BinDecoder;
 
 /// Wire form of a name given in a tiny presentation syntax: labels separated by '.', a label
-/// `@N` stands for N octets of 'x' (N <= 63), `@@N` for N octets of 'Q'. Case is preserved.
+/// `@N` stands for N octets of 'x' (N <= 63), `@@N` for N octets of 'X' (the upper-case twin). Case is preserved.
 pub fn labels(s: &str) -> Vec<Vec<u8>> {
     let mut out = vec![];
     if s == "." {
@@ -26,7 +26,7 @@ pub fn labels(s: &str) -> Vec<Vec<u8>> {
     }
     for l in s.trim_end_matches('.').split('.') {
         if let Some(n) = l.strip_prefix("@@") {
-            out.push(vec![b'Q'; n.parse().unwrap()]);
+            out.push(vec![b'X'; n.parse().unwrap()]);
         } else if let Some(n) = l.strip_prefix('@') {
             out.push(vec![b'x'; n.parse().unwrap()]);
         } else {
